@@ -871,3 +871,198 @@ Proof.
                             tc_deser_std tc_deser_wit].
     now rewrite !ob_is_emb, !ob_is_opt_emb, !otx_is_emb.
 Qed.
+
+(* ================================================================== call histories *)
+Lemma run_history_from_app Hf cs : forall store,
+  run_history_from Hf store cs = store ++ map (call_result Hf) cs.
+Proof.
+  unfold run_history_from. induction cs as [|c cs IH]; intros store; cbn [fold_left map].
+  - now rewrite app_nil_r.
+  - rewrite IH. unfold step. now rewrite <- app_assoc.
+Qed.
+(* results of a history = the function mapped over the calls: no call sees what came before *)
+Theorem history_is_map Hf cs : run_history Hf cs = map (call_result Hf) cs.
+Proof. unfold run_history. now rewrite run_history_from_app. Qed.
+(* whatever comes before and after a call, the caller of that call holds the call's own value *)
+Theorem history_results_are_values Hf pre c post :
+  nth_error (run_history Hf (pre ++ c :: post)) (length pre) = Some (call_result Hf c).
+Proof.
+  rewrite history_is_map, map_app. cbn [map].
+  rewrite nth_error_app2 by (rewrite map_length; lia).
+  rewrite map_length, Nat.sub_diag. reflexivity.
+Qed.
+(* later calls leave the store of earlier results as it was *)
+Theorem history_prefix_stable Hf pre post :
+  firstn (length pre) (run_history Hf (pre ++ post)) = run_history Hf pre.
+Proof.
+  rewrite !history_is_map, map_app.
+  rewrite <- (map_length (call_result Hf) pre) at 1. apply firstn_app_exact.
+Qed.
+(* the store a history starts from (results handed out by earlier histories) is kept too *)
+Theorem history_keeps_store Hf store cs :
+  firstn (length store) (run_history_from Hf store cs) = store.
+Proof. rewrite run_history_from_app. apply firstn_app_exact. Qed.
+
+Lemma header_eqb_eq a b : header_eqb a b = true <-> a = b.
+Proof.
+  destruct a as [v1 p1 m1 t1 b1 n1], b as [v2 p2 m2 t2 b2 n2]; unfold header_eqb;
+    cbn [h_version h_prev h_merkle h_time h_bits h_nonce].
+  rewrite !andb_true_iff, Z.eqb_eq, !N.eqb_eq, !list_eqb_eq.
+  split; [intros [[[[[-> ->] ->] ->] ->] ->]; reflexivity|intros E; inversion E; tauto].
+Qed.
+Lemma hres_eqb_eq a b : hres_eqb a b = true <-> a = b.
+Proof.
+  destruct a, b; cbn [hres_eqb]; try (split; [discriminate|congruence]); try tauto.
+  - rewrite list_eqb_eq. split; congruence.
+  - rewrite tx_eqb_eq. split; congruence.
+  - rewrite header_eqb_eq. split; congruence.
+Qed.
+Lemma opt_is_eq o b : opt_is o b = true <-> o = Some b.
+Proof.
+  destruct o as [x|]; cbn [opt_is]; [|split; discriminate].
+  rewrite list_eqb_eq. split; congruence.
+Qed.
+
+(* the executable history property: what it says about every entry *)
+Theorem hspec_ok_sound Hf h :
+  hspec_ok Hf h = true ->
+  forall e, In e h ->
+    (* results are values: read again after the rest of the history, unchanged *)
+    x_ores (he_late e) = x_ores (he_now e) /\
+    (* the call did not write to its arguments *)
+    he_input_kept e = true /\
+    (* and what the caller holds at the end still decodes to what was encoded *)
+    (forall s v, he_call e = HToVarLen s -> he_late e = OBytes v ->
+       bytes_ok (expand s) = true -> len (expand s) < 2 ^ 63 ->
+       script_from_var_len (expand v) = Some (expand s)) /\
+    (forall f c b, he_call e = HSerialize f c -> he_late e = OBytes b ->
+       tx_wf (x_tx c) = true -> tx_ins (x_tx c) <> [] ->
+       deserialize (expand b)
+       = Some (match f with Witness => x_tx c | Standard => strip_witness (x_tx c) end)) /\
+    (forall v w, he_call e = HWriteCompact v -> he_late e = OBytes w -> v < two64 ->
+       cs_decode (expand w) = ROk v []) /\
+    (* a transaction hash held at the end is the digest of the transaction as it was at the call *)
+    (forall f c, he_call e = HTxHash f c ->
+       x_ores (he_late e) = VBytes (Hf (serialize f (x_tx c)))).
+Proof.
+  intros Hs e He. unfold hspec_ok in Hs.
+  pose proof (forallb_In _ _ _ Hs He) as Hok. unfold hentry_ok in Hok. split_and.
+  match goal with H : hres_eqb _ _ = true |- _ => apply hres_eqb_eq in H; rename H into Hv end.
+  match goal with H : late_roundtrip e = true |- _ => rename H into Hr end.
+  match goal with H : hash_is_digest Hf e = true |- _ => rename H into Hd end.
+  split; [exact Hv|]. split; [assumption|]. unfold late_roundtrip in Hr.
+  split; [|split; [|split]]; cycle 3.
+  - intros f c Ec. unfold hash_is_digest in Hd. rewrite Ec in Hd.
+    destruct (he_late e) as [b| | | |]; try discriminate.
+    apply list_eqb_eq in Hd. cbn [x_ores]. now rewrite Hd.
+  - intros s v Ec El Hb Hl. rewrite Ec, El in Hr. rewrite Hb in Hr.
+    apply N.ltb_lt in Hl. rewrite Hl in Hr. cbn [andb negb] in Hr. now apply opt_is_eq.
+  - intros f c b Ec El Hwf Hne. rewrite Ec, El in Hr. cbv zeta in Hr. rewrite Hwf in Hr.
+    destruct (tx_ins (x_tx c)) as [|ti0 l0] eqn:Ei; [congruence|]. cbn [negb orb is_nil] in Hr.
+    destruct (deserialize (expand b)) as [t'|]; [|discriminate].
+    apply tx_eqb_eq in Hr. now rewrite Hr.
+  - intros v w Ec El Hv2. rewrite Ec, El in Hr.
+    assert (E : (two64 <=? v) = false) by (apply N.leb_gt; exact Hv2). rewrite E in Hr.
+    destruct (cs_decode (expand w)) as [v' [|x r]|]; try discriminate.
+    apply N.eqb_eq in Hr. now rewrite Hr.
+Qed.
+
+(* the history whose observables are the model's own results *)
+Definition emb_hdr (h : header) : chdr :=
+  {| hc_version := h_version h; hc_prev := emb (h_prev h); hc_merkle := emb (h_merkle h);
+     hc_time := h_time h; hc_bits := h_bits h; hc_nonce := h_nonce h |}.
+Definition emb_call (c : call) : hcall :=
+  match c with
+  | KSerialize f t => HSerialize f (emb_tx t)
+  | KPart p t => HPart p (emb_tx t)
+  | KTxHash f t => HTxHash f (emb_tx t)
+  | KDeserialize raw => HDeserialize (emb raw)
+  | KToVarLen s => HToVarLen (emb s)
+  | KFromVarLen raw => HFromVarLen (emb raw)
+  | KWriteCompact v => HWriteCompact v
+  | KHdrSerialize h => HHdrSerialize (emb_hdr h)
+  | KHdrDeserialize raw => HHdrDeserialize (emb raw)
+  | KHashHex h o => HHashHex (emb h) o
+  | KNewHash b o => HNewHash (emb b) o
+  | KNewHashStr s o => HNewHashStr (emb s) o
+  end.
+Definition emb_res (r : hres) : ores :=
+  match r with
+  | VBytes b => OBytes (emb b) | VTx t => OTx (emb_tx t) | VHdr h => OHdr (emb_hdr h)
+  | VErr => OErr | VPanic => OPanicked
+  end.
+Definition model_hist (Hf : list N -> list N) (cs : list call) : list hentry :=
+  map (fun c => {| he_call := emb_call c; he_now := emb_res (call_result Hf c);
+                   he_late := emb_res (call_result Hf c); he_input_kept := true |}) cs.
+
+Lemma x_emb_hdr h : x_hdr (emb_hdr h) = h.
+Proof.
+  destruct h as [v p m t b n]; unfold x_hdr, emb_hdr;
+    cbn [hc_version hc_prev hc_merkle hc_time hc_bits hc_nonce h_version h_prev h_merkle h_time h_bits h_nonce].
+  now rewrite !expand_emb.
+Qed.
+Lemma x_emb_call c : x_call (emb_call c) = c.
+Proof. destruct c; cbn [emb_call x_call]; now rewrite ?x_emb_tx, ?expand_emb, ?x_emb_hdr. Qed.
+Lemma x_emb_res r : x_ores (emb_res r) = r.
+Proof. destruct r; cbn [emb_res x_ores]; now rewrite ?x_emb_tx, ?expand_emb, ?x_emb_hdr. Qed.
+
+Lemma model_entry_roundtrip Hf c :
+  late_roundtrip {| he_call := emb_call c; he_now := emb_res (call_result Hf c);
+                    he_late := emb_res (call_result Hf c); he_input_kept := true |} = true.
+Proof.
+  unfold late_roundtrip. cbn [he_call he_late].
+  destruct c as [f t|p t|f t|raw|s|raw|v|h|raw|h o|b o|s o]; cbn [emb_call call_result];
+    try reflexivity.
+  - (* Serialize *)
+    cbn [emb_res]. rewrite x_emb_tx, expand_emb.
+    destruct (tx_wf t) eqn:Hwf; [|reflexivity].
+    destruct (tx_ins t) as [|ti l] eqn:Ei; [reflexivity|]. cbn [negb orb is_nil].
+    assert (Hne : tx_ins t <> []) by congruence.
+    destruct (deserialize_serialize t Hwf Hne) as [D1 D2].
+    destruct f; [rewrite D2|rewrite D1]; now apply tx_eqb_eq.
+  - (* ToVarLenData *)
+    cbn [emb_res]. rewrite !expand_emb.
+    destruct (bytes_ok s) eqn:Hb; [|reflexivity].
+    destruct (len s <? 2 ^ 63) eqn:Hl; [|reflexivity]. cbn [andb negb].
+    apply N.ltb_lt in Hl. apply opt_is_eq. now apply script_roundtrip.
+  - (* writeCompactSizeUint *)
+    cbn [emb_res]. rewrite expand_emb. unfold write_compact_size_uint.
+    destruct (two64 <=? v) eqn:Hv; [reflexivity|]. apply N.leb_gt in Hv.
+    pose proof (cs_roundtrip v [] Hv) as R. rewrite app_nil_r in R. rewrite R. apply N.eqb_refl.
+  - (* header *)
+    cbn [emb_res]. rewrite expand_emb, x_emb_hdr.
+    destruct (header_wf h) eqn:Hwf; [|reflexivity]. cbn [negb].
+    apply header_eqb_eq. now apply (proj1 header_roundtrip).
+  - (* Hash.Hex *)
+    cbn [emb_res]. rewrite !expand_emb.
+    destruct ((length h =? 32)%nat) eqn:Hl; [|reflexivity].
+    destruct (bytes_ok h) eqn:Hb; [|reflexivity]. cbn [andb negb].
+    apply Nat.eqb_eq in Hl. apply opt_is_eq. now apply (proj1 hash_hex_roundtrip).
+Qed.
+
+Lemma model_entry_digest Hf c :
+  hash_is_digest Hf {| he_call := emb_call c; he_now := emb_res (call_result Hf c);
+                       he_late := emb_res (call_result Hf c); he_input_kept := true |} = true.
+Proof.
+  unfold hash_is_digest. cbn [he_call he_late].
+  destruct c; cbn [emb_call call_result]; try reflexivity.
+  cbn [emb_res]. rewrite x_emb_tx, expand_emb. now apply list_eqb_eq.
+Qed.
+
+Theorem model_history_passes_spec Hf cs :
+  hspec_ok Hf (model_hist Hf cs) = true /\ hagree_with Hf (model_hist Hf cs) = true.
+Proof.
+  unfold hspec_ok, hagree_with, model_hist. rewrite !forallb_forall. split.
+  - intros e He. apply in_map_iff in He. destruct He as (c & <- & _).
+    unfold hentry_ok. rewrite model_entry_roundtrip, model_entry_digest. cbn [he_late he_now he_input_kept].
+    now rewrite (proj2 (hres_eqb_eq _ _) eq_refl).
+  - intros e He. apply in_map_iff in He. destruct He as (c & <- & _).
+    unfold hentry_agree. cbn [he_call he_now he_late]. rewrite x_emb_call, x_emb_res.
+    now rewrite (proj2 (hres_eqb_eq _ _) eq_refl).
+Qed.
+
+(* hypotheses are satisfiable: the seeded sequence of the var-len data of three scripts *)
+Example history_example :
+  run_history (fun _ => []) [KToVarLen [118; 169]; KWriteCompact 253; KToVarLen [0; 20]]
+  = [VBytes [2; 118; 169]; VBytes [253; 253; 0]; VBytes [2; 0; 20]].
+Proof. reflexivity. Qed.
